@@ -106,8 +106,8 @@ impl Transport {
 			}
 		}
 		self.position = position;
-		if self.position >= num_frames {
-			self.playing = false;
-		}
+		// a seek back into the audio revives a transport that an earlier
+		// out-of-bounds seek had halted (the sound itself has not stopped yet)
+		self.playing = self.position < num_frames;
 	}
 }
